@@ -263,6 +263,16 @@ func NewGen(seed int64, trace int, keys KeyRing) *Gen {
 			nd.Type = p.Type
 			p.NodesMap[nd.ID] = nd
 		}
+		// pool invariant kept by Pool.AddNode / ComputeProperties (and re-established by the decoder):
+		// SetIndex = rank of the node's id in the pool
+		ids := make([]string, 0, len(p.NodesMap))
+		for id := range p.NodesMap {
+			ids = append(ids, id)
+		}
+		sort.Strings(ids)
+		for i, id := range ids {
+			p.NodesMap[id].SetIndex = i
+		}
 		return p
 	}
 	// a node on its own (a new entry of a pool's map): a valid key as well
